@@ -198,6 +198,7 @@ pub fn check_posterior(c: &Case, ndraws: usize, report: Option<&mut Vec<(String,
     let mut draws: Vec<Vec<Vec<f64>>> = vec![]; // [chain][draw][coord]
     let mut divergences = 0usize;
     let mut steps: Vec<f64> = vec![];
+    let mut per_chain: Vec<(usize, f64)> = vec![];
     for chain in 0..4usize {
         spec.seed = c.seed.wrapping_mul(4).wrapping_add(chain as u64);
         let h = run_spec(&spec, LogDensity::new(c.target.density()).counting_only(), &c.target.init(chain), n_tune + ndraws, Keep::None);
@@ -214,17 +215,24 @@ pub fn check_posterior(c: &Case, ndraws: usize, report: Option<&mut Vec<(String,
         }
         divergences += h.draws[n_tune..].iter().filter(|d| d.diverging).count();
         steps.extend(h.draws[n_tune..].iter().map(|d| d.step_size));
+        per_chain.push((h.draws[n_tune..].iter().filter(|d| d.diverging).count(), {
+            let mut st: Vec<f64> = h.draws[n_tune..].iter().map(|d| d.step_size).filter(|x| x.is_finite()).collect();
+            st.sort_by(|a, b| a.partial_cmp(b).unwrap());
+            st.get(st.len() / 2).copied().unwrap_or(f64::NAN)
+        }));
         draws.push(h.draws[n_tune..].iter().map(|d| d.pos.clone()).collect());
     }
-    let km = |c: &Case| format!("{}:{}", km(c), regime(&steps, spec.da_max_step));
+    // regime of the chain with the largest step size (one runaway chain is enough for the known findings)
+    let largest: Vec<f64> = vec![per_chain.iter().map(|p| p.1).filter(|x| x.is_finite()).fold(0.0, f64::max)];
+    let km = |c: &Case| format!("{}:{}", km(c), regime(&largest, spec.da_max_step));
     let diag = {
         let mut st: Vec<f64> = steps.iter().copied().filter(|x| x.is_finite()).collect();
         st.sort_by(|a, b| a.partial_cmp(b).unwrap());
-        format!("median post-warmup step size {:.4}, {divergences} post-warmup divergences", st.get(st.len() / 2).copied().unwrap_or(f64::NAN))
+        format!("median post-warmup step size {:.4}, {divergences} post-warmup divergences; per chain (divergences, step size): {per_chain:?}", st.get(st.len() / 2).copied().unwrap_or(f64::NAN))
     };
     let well_conditioned = matches!(c.target, Target::Iso { .. } | Target::Corr { .. });
     if well_conditioned && divergences > 0 {
-        o.set_fail(format!("C04:{}:divergences-on-gaussian", km(c)), format!("{}: {divergences} post-warmup divergences on a well-conditioned Gaussian target ({}, d={d})", o.labels[0], c.target.class()));
+        o.set_fail(format!("C04:{}:divergences-on-gaussian", km(c)), format!("{}: {divergences} post-warmup divergences on a well-conditioned Gaussian target ({}, d={d}); {diag}", o.labels[0], c.target.class()));
         return o;
     }
     let batch = ndraws / 20;
